@@ -575,8 +575,12 @@ class Verifier:
         c = self.modular.get(key)
         if c is None:
             return False, None
-        if self.active is not None and getattr(self.active, 'target', None) == key and not self.in_body:
-            return False, None
+        if self.active is not None and getattr(self.active, 'target', None) == key:
+            if not self.in_body:
+                return False, None
+            if not self.entered:
+                self.entered = True      # the outermost call is the body under verification
+                return False, None
         env = Env({}, None, func.module)
         defenv = func.env if func.env is not None else Env({}, None, func.module)
         interp.bind_args(func.node, args, kwargs, env, defenv, node)
@@ -640,9 +644,13 @@ class Verifier:
                 self.world.trusted.add('A-LRUCACHE: functools.lru_cache returns the result computed for an '
                                        'earlier call whose arguments compare and hash equal (True == 1 == 1.0); '
                                        'unhashable arguments raise TypeError')
+            elif getattr(c, 'apply_decorators', False):
+                pass         # behavioural decorator: applied by interpretation below
             else:
                 rep.unsupported = f'unsupported:decorator @{ds} on {c.name}'
                 return rep
+        if getattr(c, 'apply_decorators', False) and getattr(closure.node, 'decorator_list', None):
+            closure = self.interp.apply_decorators(closure.node, closure, Env({}, None, closure.module))
         self.active = c
         self.modular = {t: self.contracts[t] for t in c.modular if t in self.contracts}
         if c.decreases is not None:
@@ -695,6 +703,7 @@ class Verifier:
                 args = self.cache_alias(args, names)
             call_args, call_kwargs = self.bind_for_call(c, closure, names, args)
             self.in_body = True
+            self.entered = False
             try:
                 target = closure
                 if c.closure_env is not None:
@@ -842,8 +851,13 @@ class Verifier:
         rep.is_lemma = True
         t0 = time.time()
         self.active = c
-        self.modular = {t: self.contracts[t] for t in lem.modular if t in self.contracts}
-        missing = [t for t in lem.modular if t not in self.contracts]
+        self.modular = {}
+        for t in lem.modular:
+            if isinstance(t, S.Contract):
+                self.modular[t.target] = t        # lemma-local (weaker) contract
+            elif t in self.contracts:
+                self.modular[t] = self.contracts[t]
+        missing = [t for t in lem.modular if not isinstance(t, S.Contract) and t not in self.contracts]
         if missing:
             rep.unsupported = f'modular callee without contract: {missing}'
             return rep
@@ -866,6 +880,7 @@ class Verifier:
                 self.decoders = {}
                 self.scenario_label = label
                 self.in_body = True
+                self.entered = True
                 args = []
                 for n in names:
                     v, d = build_value(self.world, scen[n], n)
